@@ -253,6 +253,42 @@ def h_chain_mixed(ctx):
         pred = chain.predict((qe, qn))
         for i in range(2):
             ctx.claim("prediction sums over nested steps too", eq(pred[i], P(1, 1, 0, qe[i], qn[i]) + P(3, 1, 0, qe[i], qn[i]) + P(4, 1, 0, qe[i], qn[i]) + P(2, 1, 0, qe[i], qn[i])))
+    elif kind == "nested_reduce":
+        members = cfg["members"]
+        shape = tuple(cfg["bshape"])
+        rw, re_, rs, rn = ctx.real("W"), ctx.real("E"), ctx.real("S"), ctx.real("N")
+        ctx.assume(rw < re_)
+        ctx.assume(rs < rn)
+        region = (rw, re_, rs, rn)
+        for p in range(npts):
+            ctx.assume(stubs.in_block(ctx, e[p], n[p], region, shape, members[p]))
+        red = _mean(ctx) if w is None else (npx.NP.average if ctx.sym else np.average)
+        inner_uf = UFGridder(ident=3)
+        inner = vd.Chain([("reduce", vd.BlockReduce(red, shape=shape, region=region)), ("uf3", inner_uf)])
+        chain = vd.Chain([("inner", inner), ("uf", last)])
+        chain.fit(coords, d, w)
+        rec = fits_of(last)[0]
+        ctx.claim("a chain used as a step filters like any gridder: the next step gets the coordinates and weights the chain was given", And(rec["coordinates"][0] is e, rec["coordinates"][1] is n, (rec["weights"] is None) if w is None else And([eq(a, b) for a, b in zip(np.ravel(rec["weights"]), w)])))
+        ctx.claim("and the data minus the chain's prediction at the original points, in the data's shape", np.shape(rec["data"]) == (npts,))
+        if np.shape(rec["data"]) == (npts,):
+            for i in range(npts):
+                ctx.claim("residual of a nested chain = data - sum of its predicting steps at the data points", eq(rec["data"][i], d[i] - P(3, 1, 0, e[i], n[i])))
+        # the inner gridder itself was fitted on the block-reduced data
+        irec = fits_of(inner_uf)[0]
+        rc, rd = vd.BlockReduce(red, shape=shape, region=region).filter(coords, d, w)
+        ctx.claim("inside the nested chain the gridder sees the reduced data", And(np.shape(irec["data"]) == np.shape(rd), And([eq(a, b) for a, b in zip(np.ravel(irec["data"]), np.ravel(rd))] + [True])))
+        # direct Chain.filter
+        gridders.reset()
+        c2 = vd.Chain([("reduce", vd.BlockReduce(red, shape=shape, region=region)), ("uf3", UFGridder(ident=3))])
+        out = c2.filter(coords, d, w)
+        ctx.claim("Chain.filter returns the coordinates and weights it was given", And(len(out) == 3, out[0] is coords, out[2] is w))
+        ctx.claim("Chain.filter returns data minus prediction in the data's shape", np.shape(out[1]) == (npts,))
+        if np.shape(out[1]) == (npts,):
+            for i in range(npts):
+                ctx.claim("Chain.filter residual", eq(out[1][i], d[i] - P(3, 1, 0, e[i], n[i])))
+        pred = chain.predict((qe, qn))
+        for i in range(2):
+            ctx.claim("prediction sums the predicting steps of nested chains", eq(pred[i], P(3, 1, 0, qe[i], qn[i]) + P(2, 1, 0, qe[i], qn[i])))
     elif kind == "vector":
         d2 = ctx.reals("dd", npts)
         v1 = vd.Vector([UFGridder(ident=1), UFGridder(ident=2)])
@@ -289,6 +325,8 @@ def _cfg_mixed(tier, seed):
         {"kind": "reduce", "members": [1, 0, 1, 1], "bshape": (1, 2), "weighted": True},
         {"kind": "nested", "weighted": False},
         {"kind": "vector", "weighted": True},
+        {"kind": "nested_reduce", "members": [1, 0, 1, 0], "bshape": (1, 2), "weighted": True},
+        {"kind": "nested_reduce", "members": [0, 0, 1, 0], "bshape": (1, 2), "weighted": False},
     ]
     if tier == "thorough":
         out += [{"kind": "reduce", "members": [3, 0, 3, 2, 0], "bshape": (2, 2), "npts": 5, "weighted": False}, {"kind": "nested", "weighted": True, "npts": 3}]
